@@ -365,6 +365,31 @@ pub fn run(cfg: &RunCfg) -> CheckReport {
         });
     });
     rep.part("pairs", json!({"scopes": space.describe(), "algorithms": 3, "offsets": format!("{:?}", OFFSETS)}), ex);
+    if !rep.has_violation() {
+        // the same clauses for diffs started from a destructor while the thread exits
+        const INPUTS: [(&[u8], &[u8]); 4] = [(&[0, 1, 2, 3], &[0, 9, 2, 3, 4]), (&[], &[1]), (&[0, 1, 0, 1, 2], &[1, 0, 2, 2]), (&[5, 5], &[5, 5])];
+        let ex = explore(cfg, INPUTS.len() * 3, |shard, acc| {
+            let (old, new) = INPUTS[shard / 3];
+            let alg = ALGS[shard % 3];
+            let r = at_thread_exit(
+                move || {
+                    let mut sink = Rec::new();
+                    let _ = raw_into(alg, 0, &mut sink, old, 0..old.len(), new, 0..new.len(), None);
+                    let _ = similar::capture_diff_slices(alg, old, new);
+                },
+                move || check_pair(alg, old, new).map(|_| ()),
+            );
+            match r {
+                Ok(()) => acc.ok(true, 1, shard as u64),
+                Err(e) => acc.violation(|| {
+                    let mut c = seq_case(alg, old, new);
+                    c["at_thread_exit"] = json!(true);
+                    (c, format!("diff started from a thread-local destructor at thread exit: {}", e))
+                }),
+            }
+        });
+        rep.part("thread-exit", json!({"inputs": INPUTS.len(), "note": "the whole pair check run from the Drop of a thread-local value while its thread exits, after the same thread used the library"}), ex);
+    }
     if rep.has_violation() {
         return rep;
     }
@@ -433,5 +458,15 @@ pub fn replay(case: &Value) -> Result<String, String> {
     let alg = parse_alg(case)?;
     let old = parse_seq(case, "old")?;
     let new = parse_seq(case, "new")?;
+    if case.get("at_thread_exit").is_some() {
+        let (o2, n2) = (old.clone(), new.clone());
+        return at_thread_exit(
+            move || {
+                let _ = similar::capture_diff_slices(alg, &o2, &n2);
+            },
+            move || check_pair(alg, &old, &new).map(|_| ()),
+        )
+        .map(|_| "holds".to_string());
+    }
     check_pair(alg, &old, &new).map(|o| format!("holds; fingerprint {:x}", o.fp))
 }
